@@ -18,6 +18,14 @@ pub enum TVal {
     Item(Item),
     /// a user-defined `Encodable` whose `encode` emits these bytes verbatim (possibly not one RLP item)
     Raw(#[serde(with = "crate::hexser")] Vec<u8>),
+    /// the value handed over is itself a record (`Enr<k256>` decoded from a fixed committed record), or a
+    /// `Vec` of two copies of it: the library's own `Encodable` impl runs inside the call
+    Record { list: bool },
+}
+
+/// bytes of the fixed record used by `TVal::Record`
+pub fn example_record_bytes() -> &'static [u8] {
+    &crate::sigshapes::corpus().iter().find(|r| !r.ed).expect("corpus holds a secp256k1 record").bytes
 }
 
 impl TVal {
@@ -34,6 +42,12 @@ impl TVal {
             TVal::BytesList(l) => encode(&Item::List(l.iter().map(|s| Item::s(s)).collect())),
             TVal::Item(i) => encode(i),
             TVal::Raw(b) => b.clone(),
+            TVal::Record { list: false } => example_record_bytes().to_vec(),
+            TVal::Record { list: true } => {
+                let mut o = Vec::new();
+                enc_list_payload(&mut o, &[example_record_bytes(), example_record_bytes()].concat());
+                o
+            }
         }
     }
 }
